@@ -242,3 +242,47 @@ package parse
 //@   requires lexerOK(l)
 //@   modifies l.pos, l.width
 //@   ensures lexerOK(l) && l.pos >= old(l.pos) && (ok ==> l.pos > old(l.pos))
+
+// ---------------------------------------------------------------------------
+// rawtext (C05: cannot panic, terminates; C15: the line-joining rule).
+// Ghost src is the index of the first input byte not yet accounted for. Every
+// byte stored into the result is either the input byte at an index >= src
+// (then the skipped bytes [src, i) are all whitespace and src moves past i) or
+// the single joining space, emitted only for a dropped run that contained a
+// line break and whose neighbours are not '<', '>' or a text boundary. On
+// return everything after src is whitespace: only whitespace is ever dropped,
+// everything else is copied verbatim and in order, and a run without a line
+// break is copied exactly (src == start of the run when it is copied).
+// The "+1" slack covers the virtual leading space of trimBefore, which is
+// never copied (seenNewline stays true and charBeforeTrim stays 0 there).
+//@ pred isWs(c byte) = c == ' ' || c == '\t' || c == '\r' || c == '\n'
+//@ func rawtext
+//@   props C05 C15
+//@   ghost src int = 0
+//@   at call store#3 assert[copy-in-order;C15] src == i && i < len(s) && val == s[i]
+//@   at call store#3 set src = i + 1
+//@   at call store#5 assert[copy-in-order;C15] src == i && i < len(s) && val == s[i]
+//@   at call store#5 set src = i + 1
+//@   at call store#6 assert[copy-in-order;C15] src <= i && i < len(s) && val == s[i] && forall(k, src, i, isWs(s[k]))
+//@   at call store#6 set src = i + 1
+//@   at call store#4 assert[join-space-rule;C15] val == ' ' && seenNewline && charBeforeTrim != 0 && charBeforeTrim != '<' && charBeforeTrim != '>' && r != 0 && r != '<' && r != '>'
+//@   ensures[not-longer] len(result) <= len(s)
+//@   ensures[only-whitespace-dropped;C15] 0 <= src && src <= len(s) && forall(k, src, len(s), isWs(s[k]))
+//@   loop 0
+//@     invariant 0 <= lex.pos && lex.pos <= len(s) && 0 <= lex.lastpos && lex.lastpos <= lex.pos && substr(lex.str, s, 0) && len(lex.str) == len(s)
+//@     invariant len(result) == len(s) && 0 <= spaces && 0 <= resultLen
+//@     invariant resultLen + spaces <= lex.pos + ite(spaces > 0 && charBeforeTrim == 0 && seenNewline, 1, 0)
+//@     invariant[src;C15] 0 <= src && src <= lex.pos && forall(k, src, lex.pos, isWs(s[k])) && (spaces == 0 ==> src == lex.pos) && (!seenNewline && spaces > 0 ==> src == lex.pos - spaces)
+//@     decreases len(s) - lex.pos
+//@   loop 1
+//@     invariant 0 <= i && resultLen <= i && i <= lex.pos && 0 <= resultLen && lex.pos <= len(s) && len(result) == len(s)
+//@     invariant[src;C15] src == i
+//@     decreases lex.pos - i
+//@   loop 2
+//@     invariant 0 <= i && resultLen <= i && i <= lex.lastpos && 0 <= resultLen && lex.lastpos <= lex.pos && lex.lastpos < lex.pos && lex.pos <= len(s) && len(result) == len(s) && substr(lex.str, s, 0) && len(lex.str) == len(s)
+//@     invariant[src;C15] src == i
+//@     decreases lex.lastpos - i
+//@   loop 3
+//@     invariant lex.lastpos <= i && resultLen <= i && i <= lex.pos && 0 <= resultLen && 0 <= lex.lastpos && lex.pos <= len(s) && len(result) == len(s) && substr(lex.str, s, 0) && len(lex.str) == len(s)
+//@     invariant[src;C15] 0 <= src && (i == lex.lastpos ==> src <= i && forall(k, src, i, isWs(s[k]))) && (i > lex.lastpos ==> src == i)
+//@     decreases lex.pos - i
